@@ -22,7 +22,7 @@ pub fn def() -> CheckDef {
         run,
         rule: "four seeded modes ((d) 'supplementary-case': names with cased letters outside the BMP are stored verbatim, found under the other case, and a second sibling equal up to case is refused - equality follows the crate's documented per-character simple upper-casing, order is not judged): (a) 'siblings': pools of 8-60 valid names mixing ASCII, cased and case-less non-ASCII and supplementary-plane characters, inserted and removed in drawn orders with lookups under drawn letter-case variants and alternative path spellings (./, //, trailing /, x/../), listings after each step; (b) 'validation': names of 1-40 UTF-16 units with and without / \\ : ! created through all four create calls, then looked up verbatim and after reopen; (c) 'disputed': names with characters whose case mapping is disputed - only exact-spelling findability, uniqueness, listing-as-set and listing order == in-order traversal of the stored tree are judged. Refused creations must perform zero seam writes. Image rules R6/R9 are checked by imgck after every mutation. Non-trivial: >= 1 successful creation and >= 1 check; distinct = distinct (seam log, final image) hash.",
         assumptions: &["name order/equality model exact only for agreed character classes (names.rs); disputed classes judged as described", "path syntax is Unix (the sandbox OS)"],
-        cpu_limit_s: 30,
+        cpu_limit_s: 300,
         fault_kinds: "none (seam-level write counter for refused creations)",
         count_subruns: false,
         expect_probes: &["node_with_two_siblings"],
